@@ -16,6 +16,7 @@ HAS_INFO = {"instantiate", "execute"}
 THEOREMS = ["c06_override_names", "c06_entry_point_set", "c06_override_independent",
             "c06_body_independent_of_overrides", "c06_no_duplicates", "c06_names_are_cosmwasm",
             "c06_forwarding", "c06_reply_forwarding"]
+THEOREMS_T = ["c06_translated_entry_point_set", "c06_translated_override_lookup"]
 
 
 def make_case(overrides, has_inst, has_migrate, reply_fn, replies, generic, given=None, order=None, more_replies=0):
@@ -219,6 +220,11 @@ def check(run, replay=None):
     # 2. proofs
     run.hygiene()
     run.prove("Props/C06", THEOREMS)
+    # tie by translation of the macro's own decision logic (EntryPoints::emit, get_entry_point); the correspondence below is
+    # exhaustive over the combinations in any case
+    from . import libcommon
+    libcommon.regen_imp(run)
+    run.prove("Props/C06T", THEOREMS_T, strengthening=True)
     # 3. correspondence + oracle
     if replay:
         data = json.load(open(replay))
